@@ -510,6 +510,52 @@ pub async fn cases(w: &mut World, t: &Twin) -> Vec<Case> {
         v.push(Case { name: "panic_pause".into(), ixs: vec![ix::panic_pause(fa.pubkey())], target: 0, signer_key: Some(fa.pubkey()), signers: vec![clone_kp(&fa)], entitled: vec!["fee_admin"], subs: vec![(1, "fee state->clone owned by other program".into(), fs_clone)] });
         v.push(Case { name: "propagate_fee_state".into(), ixs: vec![ix::propagate_fee(g0k)], target: 0, signer_key: None, signers: vec![], entitled: vec![], subs: vec![(0, "fee state->clone owned by other program".into(), fs_clone), (1, "group->clone owned by other program".into(), group_clone)] });
     }
+    // ---- bank life cycle (creation in both variants, closing an empty bank), bank metadata, fixed
+    // price, a forced-deleverage bracket, and the two account-level instructions only the authority
+    // may use (choosing the rewards destination, closing an empty account)
+    {
+        let p = w.chain.payer.pubkey();
+        let fw = w.fee_wallet.pubkey();
+        let mint = w.banks[t.a0].mint;
+        let (mkey, prog) = (w.mints[mint].key, w.mints[mint].program());
+        let s = role("admin");
+        let nb = w.next_kp();
+        let i = ix::add_bank(g0k, s.pubkey(), p, fw, mkey, nb.pubkey(), prog, default_bank_cfg());
+        v.push(Case { name: "add_bank".into(), ixs: vec![i], target: 0, signer_key: Some(s.pubkey()), signers: vec![s, nb], entitled: vec!["admin"], subs: vec![(0, "group->foreign group".into(), g1k)] });
+        let s = role("admin");
+        let seed = 900_000 + w.banks.len() as u64;
+        let (i, _) = ix::add_bank_with_seed(g0k, s.pubkey(), p, fw, mkey, seed, prog, default_bank_cfg());
+        v.push(Case { name: "add_bank_with_seed".into(), ixs: vec![i], target: 0, signer_key: Some(s.pubkey()), signers: vec![s], entitled: vec!["admin"], subs: vec![(0, "group->foreign group".into(), g1k), (3, "fee state->clone owned by other program".into(), fs_clone), (4, "global fee wallet->stranger".into(), w.user_kp(3).pubkey())] });
+        // an empty bank of this group (nobody ever entered it) can be closed - by the group admin only
+        let now = w.chain.now();
+        if let Ok(eb) = w.add_bank_pyth(t.g0, mint, default_bank_cfg(), PythPx::simple(1_000_000, -6, now)).await {
+            let s = role("admin");
+            let ebk = w.banks[eb].key;
+            v.push(Case { name: "close_bank".into(), ixs: vec![ix::close_bank(g0k, s.pubkey(), ebk)], target: 0, signer_key: Some(s.pubkey()), signers: vec![s], entitled: vec!["admin"], subs: vec![(0, "group->foreign group".into(), g1k), (1, "bank->foreign group's bank".into(), a1), (1, "bank->clone owned by other program".into(), a0_clone)] });
+        }
+        let s = role("admin");
+        v.push(Case { name: "set_fixed_oracle_price".into(), ixs: vec![ix::set_fixed_price(g0k, s.pubkey(), a0, wi(1.0))], target: 0, signer_key: Some(s.pubkey()), signers: vec![s], entitled: vec!["admin"], subs: bank_admin_subs(0, 2) });
+        if !w.shadow.contains_key(&ix::metadata_key(&a0)) {
+            let _ = w.raw_send(&[ix::init_bank_metadata(a0, p)], &[]).await;
+        }
+        let s = role("metadata");
+        v.push(Case { name: "write_bank_metadata".into(), ixs: vec![ix::write_bank_metadata(g0k, a0, s.pubkey(), Some(b"TICK".to_vec()), Some(b"a bank".to_vec()))], target: 0, signer_key: Some(s.pubkey()), signers: vec![s], entitled: vec!["metadata"], subs: vec![(0, "group->foreign group".into(), g1k), (1, "bank->foreign group's bank".into(), a1)] });
+        // forced deleverage: an empty bracket on the user's account, opened and closed by the risk admin
+        let s = role("risk");
+        let rm = w.risk_metas(t.acct0, None, None);
+        let mut ixs = vec![ix::start_deleverage(g0k, acct0k, s.pubkey(), rm.clone()), ix::end_deleverage(g0k, acct0k, s.pubkey(), rm)];
+        let has_rec = w.shadow.contains_key(&ix::liq_record_key(&acct0k));
+        if !has_rec {
+            ixs.insert(0, ix::init_liq_record(acct0k, p));
+        }
+        v.push(Case { name: "start_deleverage".into(), ixs, target: if has_rec { 0 } else { 1 }, signer_key: Some(s.pubkey()), signers: vec![s], entitled: vec!["risk"], subs: vec![(2, "group->foreign group".into(), g1k)] });
+        // account-level: authority only (no frozen-account path)
+        let dest = w.user_kp(3).pubkey();
+        v.push(Case { name: "update_emissions_destination".into(), ixs: vec![ix::update_emissions_destination(acct0k, ak, dest)], target: 0, signer_key: Some(ak), signers: vec![clone_kp(&auth)], entitled: vec!["authority"], subs: vec![] });
+        let fresh = w.add_account(t.g0, t.user).await;
+        let fk = w.accts[fresh].key;
+        v.push(Case { name: "close_account".into(), ixs: vec![ix::close_account(fk, ak, p)], target: 0, signer_key: Some(ak), signers: vec![clone_kp(&auth)], entitled: vec!["authority"], subs: vec![] });
+    }
     let _ = (admin, kb1, ka1);
     v
 }
